@@ -4,6 +4,7 @@ import hashlib
 from hypothesis import strategies as st
 
 from ..core import Prop
+from ..codec import B
 from ..env import TraphException
 from ..lru import lru_from
 from .c02 import near_miss
@@ -38,7 +39,8 @@ class C14(Prop):
     RULE = ("cases = Hypothesis histories building an index state, and after EVERY write step a drawn batch of read-only calls "
             "covering every public query (resolution, potential prefix, page/link/network queries, both paginations, "
             "hierarchy, counts, metrics, enumerations, trie lookups) with generated arguments: present and absent LRUs, known "
-            "and unknown webentity ids, right/partial/wrong prefix lists, valid and arbitrary tokens, all switch values; "
+            "and unknown webentity ids, right/partial/wrong prefix lists, valid and arbitrary tokens, all switch values, and (one "
+            "step in four, on-disk) the same index reopened with a SUBSET of its rules and queried below the forgotten anchors; "
             "SHA-256 and length of both stores before == after each call, whatever it returned or raised. non-trivial = a case "
             "in which some call returned a non-empty answer and some call raised TraphException on a non-empty index; "
             "evidence lists calls per API name.")
@@ -99,7 +101,19 @@ class C14(Prop):
                 elif c == "T":
                     args.append(data.draw(st.sampled_from(TOKENS + ["use-last"])))
             calls.append([name] + args)
-        return [("probe", "queries", calls)]
+        probes = [("probe", "queries", calls)]
+        if case.config.backend == "file" and led.rules and data.draw(st.integers(0, 3)) == 0:
+            # the constructor accepts any rule dict: an index reopened with FEWER rules than its trie has anchors is a reachable
+            # state too.  Only read-only calls are issued in that state (the clean tree may raise KeyError there, which is not
+            # a modification); afterwards the index is reopened with the full rule set.
+            keep = sorted(a for a in sorted(led.rules) if data.draw(st.booleans()))
+            below = []
+            for a in sorted(led.rules):
+                below.append(a + data.draw(st.sampled_from([b"h:zz|p:q|", b"p:a|p:b|p:c|", b"h:a|h:b|p:x|p:y|"])))
+            known_below = [l for l in clos if any(l.startswith(a) for a in led.rules)]
+            qs = below + (data.draw(st.lists(st.sampled_from(known_below), max_size=3)) if known_below else [])
+            probes.append(("probe", "fewer-rules", keep, qs))
+        return probes
 
     def _invoke(self, case, call):
         t = case.t
@@ -152,6 +166,8 @@ class C14(Prop):
 
     def run_probe(self, case, pop):
         ctx = case.ctx
+        if pop[1] == "fewer-rules":
+            return self.fewer_rules(case, [B(a) for a in pop[2]], [B(q) for q in pop[3]])
         for call in pop[2]:
             before = digest(case)
             outcome = "returned-empty"
@@ -177,6 +193,39 @@ class C14(Prop):
                 case.flag("non-empty-answer")
             if outcome == "refused" and case.led.closure:
                 case.flag("refused-on-non-empty-index")
+
+    def fewer_rules(self, case, keep, queries):
+        ctx, idx = case.ctx, case.idx
+        if idx.traph.in_memory or not all(a in idx.rules for a in keep):
+            return
+        full = dict(idx.rules)
+        idx.traph.close()
+        idx.traph = None
+        try:
+            idx.open(False, {a: full[a] for a in keep})
+            for name in ("get_potential_prefix", "retrieve_prefix", "retrieve_webentity", "get_webentity_by_prefix", "get_page_links"):
+                for q in queries:
+                    before = digest(case)
+                    outcome = "returned"
+                    try:
+                        getattr(idx.traph, name)(q)
+                    except TraphException:
+                        outcome = "refused"
+                    except Exception as e:
+                        if type(e).__module__.startswith("hypothesis"):
+                            raise
+                        outcome = "raised " + type(e).__name__
+                    after = digest(case)
+                    ctx.event("call-with-fewer-rules:" + name)
+                    if before != after:
+                        ctx.fail("store-modified", "index reopened with rules %r of %r: read-only call %s(%r) (%s) changed the stores"
+                                 % (sorted(keep), sorted(full), name, q, outcome), case)
+            case.flag("queried-with-fewer-rules")
+        finally:
+            if idx.traph is not None:
+                idx.traph.close()
+                idx.traph = None
+            idx.open(False, full)
 
     def nontrivial(self, case):
         return "non-empty-answer" in case.flags and "refused-on-non-empty-index" in case.flags
